@@ -197,3 +197,29 @@ def is_param(x, body, idx):
 
 def mentions_param(t, body, idx):
     return any(is_param(x, body, idx) for x in walk(t))
+
+
+def local_uses(body, local):
+    """[(block, line, what)] reads of `local` (as operand, referenced place or switch discriminant), cleanup blocks skipped"""
+    out = []
+    for blk in body.blocks:
+        if blk.cleanup:
+            continue
+        for st in blk.stmts:
+            if st.kind != "assign":
+                continue
+            for o in st.rv.operands():
+                if o.place is not None and o.place.local == local:
+                    out.append((blk.idx, st.line, "operand"))
+            pl = st.rv.place()
+            if pl is not None and pl.local == local:
+                out.append((blk.idx, st.line, st.rv.kind))
+        t = blk.term
+        if t.kind == "call":
+            for a in t.args:
+                if a.place is not None and a.place.local == local:
+                    out.append((blk.idx, t.line, "argument"))
+        elif t.kind == "switch":
+            if t.discr.local() == local:
+                out.append((blk.idx, t.line, "switch"))
+    return out
